@@ -232,6 +232,14 @@ Proof.
   destruct (reach_count M c0 HM Hc tr s Hr Hk' Hl) as [Hn _]. now apply (unique_partial M c0 tr s).
 Qed.
 
+Theorem unique_partial32 c0 tr s : c0 < M32 -> reach M32 c0 tr s -> ~ Known_C15 tr -> nfetch s <= M32 ->
+  (NoDup (serials s) /\ ~ In 0 (serials s)) /\ ~ In Panicked (ops s).
+Proof. exact (unique_partial M32 c0 tr s eq_refl). Qed.
+
+Theorem messages_partial32 c0 tr s : c0 < M32 -> reach M32 c0 tr s -> ~ Known_C15 tr ->
+  N.of_nat (length (ops s)) < M32 -> (NoDup (serials s) /\ ~ In 0 (serials s)) /\ ~ In Panicked (ops s).
+Proof. exact (messages_partial M32 c0 tr s eq_refl). Qed.
+
 (* the executable oracle decides the property *)
 Lemma adj_distinct_nodup l : StronglySorted (fun x y => is_true (x <=? y)) l -> (adj_distinct l = true <-> NoDup l).
 Proof.
